@@ -1041,7 +1041,8 @@ x
         k of connected components
         """
         k = self.cc().max() + 1
-        E = 2 * self.V - 2
+        # a spanning forest of a graph with k components has V - k edges
+        E = 2 * (self.V - k)
         V = self.V
         Kedges = np.zeros((E, 2)).astype(np.intp)
         Kweights = np.zeros(E)
